@@ -8,7 +8,11 @@ NOTES = ("Every check: (1) rebuilds and re-checks the property theorems in coq/t
          "(3) runs an independent oracle of the property on the implementation; see DESIGN.md sections 2 and 4.")
 NOT_YET = {}
 CHECKS = {}
+# only properties the lead has integrated (check verified green on the unchanged tree) are claimed
+_claimed = set(open(os.path.join(HERE, "claimed.txt")).read().split())
 for f in sorted(glob.glob(os.path.join(HERE, "registry.d", "C*.json"))):
+    if os.path.basename(f)[:-5] not in _claimed:
+        continue
     _r = json.load(open(f))
     if _r.get("text", "").strip().lower() in ("", "in progress"):
         continue        # builder has not finished: not claimed
